@@ -41,6 +41,30 @@ NOTES = {
  "C17-r4/": "would have been missed (min/max only on fresh grids); strengthened before the first evaluation: one grid object through setLayout / save / restore / free with the request order reversed after the restore",
  "C18-r4/": "would have been missed (folder names without dots); strengthened before the first evaluation: folders split_2.5, unsplit.v2_7, lt<i>_1.5",
  "C20-r4/": "first missed (only the search functions were called); C20 now also asks the set-up functions, with and without a plot-only rank, which grid they chose",
+ "C02-r5m3/": "first missed by C02 (layouts of a layout swapper were not inspected; C03 detected it); C02 now checks that they tile the array once per replica",
+ "C06-r5m3/": "first missed (figure blocks were only gathered from real grids); C06 now records the gather of a complex grid",
+ "C06-r5m5/": "first missed (the plot-only rank was always rank 0); C06 now records set-ups whose draw rank is the last / a middle rank",
+ "C07-r5m1/": "first missed (cell widths were binary fractions, at most 6 cells); C07 now runs uniform cubic spaces with 9-11 cells on [-1,1] and [0,1]",
+ "C10-r5m2/": "first a machinery failure (an IndexError of the mutated code escaped an unguarded call of the driver); exceptions raised inside the code under test that escape a driver are now violations (code-raises)",
+ "C10-r5m5/": "first missed by C10 (grid-level slip; C05 detected it); C10, C11, C12 now judge the grid-level entry points slice by slice (harness/gridops.py)",
+ "C11-r5m5/": "first missed by C11 (grid-level slip; C05 detected it); see C10-r5m5",
+ "C12-r5m4/": "first missed by C12 (grid-level slip; C05 detected it); see C10-r5m5",
+ "C12-r5m5/": "first missed by C12 (grid-level slip; C05 detected it); see C10-r5m5",
+ "C13-r5m1/": "first missed (the radius was always the leading dimension of the layout); C13 now also uses a layout with the radius in second position",
+ "C14-r5m1/": "first missed (a manufactured right-hand side makes the quadrature error cancel, and the requested exactness was generous); C14 now compares with the exact rational Galerkin solution at exactly the needed, even, exactness (harness/weakform.py)",
+ "C14-r5m2/": "first missed (C was zero everywhere or nowhere); C14 now offers a C that vanishes on part of the domain",
+ "C14-r5m3/": "first missed by C14 (serial only; C15 detected it); C14 now runs solveEquation with the modes distributed over processes",
+ "C14-r5m5/": "first missed by C14 (serial only; C15 and C05 detected it); see C14-r5m3",
+ "C15-r5m1/": "first missed by C15 (equilibrium run on 2 ranks did not split the radius; C16 and C05 detected it); C15 now also runs it on 4 ranks (2x2)",
+ "C15-r5m4/": "first missed by C15 (only the general solver ran on several process grids; C05 detected it); C15 now runs the QuasiNeutralitySolver pipeline on every process grid",
+ "C15-r5m5/": "first missed by C15 (operands of the driver's statements were not recorded; after that C05 detected it); TimeStep.tla now carries the operands and C15 validates the driver's quasi-neutrality statements",
+ "C17-r5m4/": "first a machinery failure (an infinite result reached int()); results are now converted safely and out-of-range numbers clamped before they reach TLC",
+ "C17-r5m5/": "first a machinery failure; see C17-r5m4",
+ "C18-r5m4/": "first missed (no constants file with zero values); C18 now checks that every literal of a file is kept, zeros included",
+ "C18-r5m5/": "not confirmed at HEAD (its demonstration already fails on the unmodified tree after the repairs of 13.3); detected anyway",
+ "C19-r5m1/": "first a machinery failure (the process running the compiled kernels died of memory corruption); that is now a violation",
+ "C19-r5m5/": "first missed (output arrays were zero on entry); C19 now hands over output arguments with stale contents",
+ "C20-r5m4/": "first missed (only setupCylindricalGrid with draw rank 0); C20 now also asks setupFromFile and other draw ranks",
 }
 rows = []
 for d in sorted(glob.glob("/verif/seeded/*/meta.json")):
